@@ -6,6 +6,7 @@ import (
 	"fmt"
 	"math/big"
 	"os"
+	"reflect"
 	"regexp"
 	"strings"
 	"sync"
@@ -75,6 +76,25 @@ const (
 
 var codecOpNames = []string{"enc-ttlv", "enc-xml", "enc-json", "enc-text", "dec-ttlv", "dec-xml", "dec-json", "enc-text-hide"}
 
+// application-defined types (tags outside the KMIP range, registered by the harness)
+type c20Mid struct {
+	First   int32  `ttlv:"0x540001"`
+	Skipped string `ttlv:"-"`
+	Second  string `ttlv:"0x540002"`
+	hidden  int
+	Third   []byte `ttlv:"0x540003,omitempty"`
+	Last    bool   `ttlv:"0x540004"`
+}
+
+type c20Edges struct {
+	Skipped bool   `ttlv:"-"`
+	A       int64  `ttlv:"0x540011"`
+	B       string `ttlv:"0x540012"`
+	Inner   c20Mid `ttlv:"0x540013"`
+	C       int32  `ttlv:"0x540014"`
+	Tail    string `ttlv:"-"`
+}
+
 func isEncOp(op int) bool { return op <= opEncText || op == opEncTextHide }
 
 func init() {
@@ -84,6 +104,14 @@ func init() {
 	ttlv.RegisterHideTag(0x420094)
 	ttlv.RegisterHideTag(0x420043)
 	ttlv.RegisterHideTag(0x420040)
+	ttlv.RegisterTag("VerifAppMid", 0x540000, reflect.TypeFor[c20Mid]())
+	ttlv.RegisterTag("VerifAppEdges", 0x540010, reflect.TypeFor[c20Edges]())
+	for i, n := range []string{"VerifFirst", "VerifSecond", "VerifThird", "VerifLast"} {
+		ttlv.RegisterTag(n, 0x540001+i)
+	}
+	for i, n := range []string{"VerifA", "VerifB", "VerifInner", "VerifC"} {
+		ttlv.RegisterTag(n, 0x540011+i)
+	}
 }
 
 var (
@@ -231,6 +259,13 @@ func buildCorpus() {
 			BatchItem: []kmip.ResponseBatchItem{{Operation: kmip.OperationGetAttributes, ResultStatus: kmip.ResultStatusSuccess,
 				ResponsePayload: &payloads.GetAttributesResponsePayload{UniqueIdentifier: "zoned", Attribute: []kmip.Attribute{{AttributeName: kmip.AttributeNameActivationDate, AttributeValue: at}}}}}}
 		corpus = append(corpus, corpusEntry{name: fmt.Sprintf("zoned-message/%d", i), value: msg, target: func() any { return &kmip.ResponseMessage{} }})
+	}
+	// application-defined structures handled by the reflection plans, with excluded (ttlv:"-") and unexported fields at
+	// the front, in the middle and at the end, used in both directions
+	for i := 0; i < 3; i++ {
+		b := []byte(fmt.Sprintf("bytes-%d", i))
+		corpus = append(corpus, corpusEntry{name: fmt.Sprintf("app-struct/mid/%d", i), value: &c20Mid{First: int32(i + 1), Skipped: "never written", Second: fmt.Sprintf("second-%d", i), Third: b, Last: i%2 == 0}, target: func() any { return &c20Mid{} }})
+		corpus = append(corpus, corpusEntry{name: fmt.Sprintf("app-struct/edges/%d", i), value: &c20Edges{Skipped: true, A: int64(100 + i), B: fmt.Sprintf("b-%d", i), Inner: c20Mid{First: 7, Second: "inner", Last: true}, C: int32(i), Tail: "never written"}, target: func() any { return &c20Edges{} }})
 	}
 	// values whose encoding panics half-way (negative interval after some content; a Go type the encoder does not
 	// support): the panic is the deterministic result of that call, and whatever the aborted call leaves behind
